@@ -85,8 +85,8 @@ theorem file_codec_table_rule :
 
 /-- (iii) the tables are not empty and their keys are distinct -/
 theorem nonvacuous_decode_tables :
-    Generated.decodeContainerKinds.length = 3 ∧ (keys Generated.decodeContainerKinds).Nodup ∧
-    Generated.decodeListKinds.length = 3 ∧ (keys Generated.decodeListKinds).Nodup ∧
+    Generated.decodeContainerKinds ≠ [] ∧ (keys Generated.decodeContainerKinds).Nodup ∧
+    Generated.decodeListKinds ≠ [] ∧ (keys Generated.decodeListKinds).Nodup ∧
     (∀ k ∈ keys Generated.decodeContainerKinds ++ keys Generated.decodeListKinds, k ∈ reflectKinds) ∧
     reflectKinds.Nodup ∧ reflectKinds.length = 27 ∧ (∀ k ∈ scalarKinds, k ∈ reflectKinds) ∧
     Generated.fileDecoders.length = 4 ∧ (keys Generated.fileDecoders).Nodup ∧
